@@ -255,14 +255,12 @@ class Expression:
             current_token = tmp_expression[i]
             if self.is_number(current_token):
                 queue.append(int(current_token, 0))
-            elif current_token in context:
-                value = context[current_token]
+            elif current_token in context or current_token in self.cstruct.consts:
+                value = context[current_token] if current_token in context else self.cstruct.consts[current_token]
                 if isinstance(value, (bytes, str)) and len(value) == 1:
                     # A character counts by its code (int() would read it as a decimal digit)
                     value = ord(value)
                 queue.append(int(value))
-            elif current_token in self.cstruct.consts:
-                queue.append(int(self.cstruct.consts[current_token]))
             elif current_token in self.unary_operators:
                 stack.append(current_token)
             elif current_token == "sizeof":
